@@ -95,7 +95,7 @@ def cases(tier, seed):
     # exact-rank (r = R: the reconstruction must be exact) and generic spectra, even and odd pass counts
     ladder = [(40, 24, 9, 5, 9, "simple"), (50, 30, 10, 0, 10, "simple"), (70, 26, 12, 10, 12, "geometric"), (33, 9, 4, 2, 4, "simple"),
               (9, 33, 4, 2, 9, "simple"), (34, 34, 10, 5, 34, "geometric"), (65, 12, 6, 3, 6, "simple"), (12, 65, 6, 3, 12, "geometric"),
-              (36, 20, 12, 10, 20, "simple")]
+              (36, 20, 12, 10, 20, "simple"), (300, 6, 3, 2, 3, "simple"), (5, 270, 2, 4, 2, "simple"), (257, 4, 2, 0, 2, "simple"), (130, 129, 3, 0, 3, "simple")]
     if tier != "quick":
         ladder += [(a, b, R_, P_, R_, "simple") for (a, b) in ((48, 47), (64, 20), (20, 64), (97, 10), (33, 33), (130, 6)) for (R_, P_) in ((3, 0), (5, 10))]
     # exact power-of-two scalings (norm of A far below eps / far above 1/eps), exact-rank without oversampling (the sketch handed to the
